@@ -210,18 +210,28 @@ fn c15_kf_short_patterns_have_a_hash_key() {
     assert!(ok, "pattern shorter than 4 bytes: SectionRules::from_rules panics (Prefixes of length less than 4 not yet supported)");
 }
 
-// section_name_prefix_hash: defined exactly for names of >= 4 bytes and depends only on them
+// section_name_prefix_hash: defined exactly for names of >= 4 bytes and depends only on them.
+// The two names are built from ONE symbolic 4-byte prefix (two independently symbolic names
+// assumed equal on their first four bytes make CBMC prove the equivalence of two multiplier
+// circuits, which did not finish in 15 min - measured).
 macro_rules! c15_hash_harness {
     ($name:ident, $la:expr, $lb:expr) => {
         #[kani::proof]
         #[kani::unwind(10)]
         fn $name() {
-            let a: [u8; $la] = kani::any();
-            let b: [u8; $lb] = kani::any();
+            let prefix: [u8; 4] = kani::any();
+            let mut a: [u8; $la] = kani::any();
+            let mut b: [u8; $lb] = kani::any();
+            let mut i = 0;
+            while i < 4 {
+                if i < $la { a[i] = prefix[i]; }
+                if i < $lb { b[i] = prefix[i]; }
+                i += 1;
+            }
             let ha = section_name_prefix_hash(&a[..]);
             let hb = section_name_prefix_hash(&b[..]);
             assert!(ha.is_some() == ($la >= 4) && hb.is_some() == ($lb >= 4));
-            if $la >= 4 && $lb >= 4 && a[0] == b[0] && a[1] == b[1] && a[2] == b[2] && a[3] == b[3] {
+            if $la >= 4 && $lb >= 4 {
                 assert!(ha == hb, "names with equal 4-byte prefixes hash differently");
             }
         }
